@@ -166,4 +166,18 @@ OBL = [
     dict(id="hmac-collect", fn=r"^hss::aux::compute_hmac_(i|o)pad$", site=r"call:core::iter::traits::iterator::Iterator::collect", operand=None,
          reason="collects one byte per key byte; the key is a hash output (<= 32 bytes) into ArrayVec<[u8; 32]>",
          requires=["hmac-key-is-hash-output"]),
+    # ---------------- capacities dimensioned by the build limits (HBS_LMS_* environment, C14) --------------------------
+    # In the default build these sites are discharged by interval analysis alone (every table row fits); in a constrained
+    # build they hold only because the decoder refuses parameters beyond the per-level limits.
+    dict(id="limit-chains", fn=r"^lm_ots::(keygen::generate_private_key|keygen::generate_public_key|signing::LmotsSignature::calculate_signature)$",
+         site=r"call:tinyvec::arrayvec::ArrayVec::push", operand=None,
+         reason="one push per Winternitz chain (loop over 0..p); p <= MAX_NUM_WINTERNITZ_CHAINS because the parameter passed the per-level limit test w >= WINTERNITZ_PARAMETERS[level] >= MIN_WINTERNITZ_PARAMETER",
+         requires=["GF-LIMITS", "params-only-from-decoder", "T-LIMIT-CHAINS", "chain-loops-run-to-p"]),
+    dict(id="limit-auth-path", fn=r"^lms::signing::LmsSignature::build_authentication_path$", site=r"call:tinyvec::arrayvec::ArrayVec::push", operand=None,
+         reason="one push per tree level (loop runs while the height counter is below the tree height); height <= TREE_HEIGHTS[level] <= MAX_TREE_HEIGHT by the limit test",
+         requires=["GF-LIMITS", "params-only-from-decoder", "T-LIMIT-HEIGHT", "auth-path-loop-runs-to-height"]),
+    dict(id="limit-hss-signature", fn=r"^hss::signing::HssSignature::to_binary_representation$", site=r"call:tinyvec::arrayvec::ArrayVec::extend_from_slice", operand=None,
+         reason="level word + one signed public key per upper level + the message signature; each part is bounded by the formula lengths of its own level's limits, whose sum is the buffer's capacity and fits the u16 length field",
+         requires=["GF-LIMITS", "params-only-from-decoder", "T-LIMIT-SIGLEN", "expansion-one-key-per-level"]),
+
 ]
